@@ -182,6 +182,21 @@ fn classify(msg: &str, file: &str, frames: &[String]) -> (&'static str, String) 
     if !file.starts_with(crate::REPO_IMPL_SRC) {
         return ("internal", format!("raised outside derive_more-impl sources ({})", file));
     }
+    // `#[track_caller]` constructors of the dependencies (`Ident::new`, `format_ident!`, `Literal::..`) report the
+    // derive's own line as the location although the panic is the dependency rejecting what the derive handed it
+    // (e.g. `"__DISCRIMINANT_r#type" is not a valid Ident`): judged by the frame that actually raised it
+    for f in frames {
+        if f.starts_with("core::panicking") || f.starts_with("std::panicking") || f.contains("rust_begin_unwind") || f.contains("begin_panic") {
+            continue;
+        }
+        let g = f.trim_start_matches('<');
+        for dep in ["proc_macro2::", "syn::", "quote::", "convert_case::", "unicode_xid::"] {
+            if g.starts_with(dep) {
+                return ("internal", format!("raised inside dependency frame `{}` on behalf of the derive", f));
+            }
+        }
+        break;
+    }
     ("deliberate", String::new())
 }
 
